@@ -54,23 +54,23 @@ T = {
 NOTES = {
  "C01": "CHOLMOD stand-in (dense Cholesky) trusted; 10 objective families (incl. two-scale, valley, far-flat, barrier), settings incl. their boundaries (tol=0), load sequences on one Objective; D1 open (final success-flagged iterate uphill).",
  "C02": "jax autodiff of the library's own energy (dense Hessian, or Hessian-vector products for the >1000-element size class) is the reference; open: D12 (unsymmetric log-strain tangent at repeated stretches); C02-N1 (mixed state widths in multi-block) fixed in /repo 04045a4, the mixed-width class must hold.",
- "C03": "scipy Gauss-Jacobi (long-double polished) and Gauss-Legendre rules exact to the stated degree; meshes at absolute scales 1e-8..1e8 and offsets; library-elevated meshes judged as returned.",
+ "C03": "scipy Gauss-Jacobi (long-double polished) and Gauss-Legendre rules exact to the stated degree; meshes at absolute scales 1e-8..1e8 and offsets; library-elevated meshes judged as returned. User rules of the same size as library rules (reflected/rotated points) and the padded 1D rule follow the library rule in every mesh case.",
  "C04": "CHOLMOD stand-in trusted; convex classes built around Slater points with planted KKT points, active-set enumeration for m<=6; non-returns vacuous with a per-class return-rate floor; load sequences on reused objectives.",
  "C05": "CHOLMOD stand-in trusted; planted box-QP optimum cross-checked by an independent projected-Newton solve; contracts on project/project_onto_tr/Cauchy point in situ; D1 open.",
  "C06": "dense eigh + long-double secular bisection oracle (self-checked by brute force), n<=40, exact-structure classes and an exhaustive small-integer 2x2 sub-space; D20 open (preconditioned-norm recurrence drift).",
- "C07": "CHOLMOD stand-in trusted; forward-mode dense Jacobians + numpy solve are the IFT reference; exact, stale, Jacobi, identity and perturbed preconditioners; rate-dependent materials and dt in the helper products.",
+ "C07": "CHOLMOD stand-in trusted; forward-mode dense Jacobians + numpy solve are the IFT reference; exact, stale, Jacobi, identity and perturbed preconditioners; rate-dependent materials and dt in the helper products. Load-case studies on one reused Objective (both entry points) are judged against the same call on a fresh Objective.",
  "C08": "Haar rotations; tolerance = rounding bound of the energy formula times measured scale; unit-system sweep 2^-40..2^40; aliased-options histories; D8 open (batched eigen-solver at repeated stretches).",
  "C09": "numpy re-implementation of hardening laws / Hencky energy / incremental potential trusted; yield strain 1e-9..3e-2, E over 12 decades, stretches 0.1..10; open: D8 (batched), C09-N1, C09-N3, C09-N4 (root finder / absolute guards at extreme ratios).",
  "C10": "8th-order central differences with two stencil widths and a yield-switch margin; unit-system sweep up to SI pascals; D12 open (second derivative at repeated stretches).",
  "C11": "numpy equilibrium energy and closed-form limits trusted; moduli 1e-6..1e9, tau 1e-4..1e4, dt/tau 1e-6..1e6, stretches 0.1..10; D8 open (batched).",
  "C12": "numpy eigvalsh, Daleckii-Krein, fractions.Fraction, scipy sqrtm/logm trusted; exact-degeneracy classes in dyadic arithmetic for every branch variable; open: D8, D8b, D24 (compiled eigen-solver at ties), D22 (logm Pade table).",
- "C13": "harness-written Exodus/JSON files are well-formed by construction; pure-numpy structural validator; operands must come back unchanged; absolute scale/offset sweep.",
+ "C13": "harness-written Exodus/JSON files are well-formed by construction; pure-numpy structural validator; operands must come back unchanged; absolute scale/offset sweep. Tiny edge tables (from the single-cell 2x2 mesh up) under random node renumbering.",
  "C14": "boolean-mask oracle; index-map orientation accepted up to one global transpose (DESIGN 8.3); exhaustive over all BC subsets of the 2x2-node mesh; redefinition histories in one process; assembly at 2^-70..2^45.",
- "C15": "CHOLMOD stand-in trusted; solver run with tight tolerances; plane strain and axisymmetric, pressure projection 0/1; energy clause as read in DESIGN section 3.",
+ "C15": "CHOLMOD stand-in trusted; solver run with tight tolerances; plane strain and axisymmetric, pressure projection 0/1; energy clause as read in DESIGN section 3. Density / material studies on a shared FunctionSpace (each dynamics object must keep its own mass).",
  "C16": "long-double closed forms cross-checked by brute force; absolute scales 1e-12..1e8; D15 open (average-normal policy with coinciding normals).",
  "C17": "numpy transcription of rtsafe is the reference model for honest budget exhaustion; open: D10 (honest NaN on exhaustion), D10d (step-size criterion in steep regions).",
  "C18": "x87 long-double oracle; every inequality to 16 ulp of the result scale; exact switch/tie/zero clusters via nextafter.",
- "C19": "CHOLMOD stand-in trusted; dense H^-1 dg/dp oracle (jacfwd), certified references; increment ladder 1e-14..1 and data scales 1e-12..1e12; in-situ recorder on all four drivers.",
+ "C19": "CHOLMOD stand-in trusted; dense H^-1 dg/dp oracle (jacfwd), certified references; increment ladder 1e-14..1 and data scales 1e-12..1e12; in-situ recorder on all four drivers. Direct warm starts on objects with an evaluation pre-history at the same point under foreign parameters.",
  "C20": "harness reader implements the legacy-VTK grammar for unstructured grids (self-tested on corrupted files in every worker); shadow model of each writer's contents; NaN/inf field values not exercised.",
 }
 
